@@ -272,8 +272,8 @@ func (u *ui) PrintErr(args ...interface{}) {
 	u.res.UIErr = append(u.res.UIErr, fmt.Sprint(args...))
 	u.mu.Unlock()
 }
-func (u *ui) IsTerminal() bool                              { return u.isTTY }
-func (u *ui) WantBrowser() bool                             { return false }
+func (u *ui) IsTerminal() bool                             { return u.isTTY }
+func (u *ui) WantBrowser() bool                            { return false }
 func (u *ui) SetAutoComplete(complete func(string) string) {}
 
 // Run executes driver.PProf once. Calls are serialised (global option store).
